@@ -29,6 +29,25 @@ theorem C13_child_nodes (o : Onto) (S : List Nat) (h : Resolves o S) :
   rw [mem_ofList, hmem]
   rfl
 
+/-- consequences: the result is a subset of the set, no member of it is an ancestor of another one,
+and applying `child_nodes` again changes nothing -/
+theorem C13_child_nodes_antichain (o : Onto) (S R : List Nat) (h : Resolves o S)
+    (hR : childNodes o S = .ok R) :
+    (∀ x ∈ R, x ∈ S) ∧ (∀ x ∈ R, ∀ y ∈ R, ∀ t, o.get y = some t → x ∉ t.allParents) ∧
+    childNodes o R = .ok R := by
+  obtain ⟨R', hR', hs, hmem⟩ := C13_child_nodes o S h
+  rw [hR] at hR'; cases hR'
+  have hsub : ∀ x ∈ R, x ∈ S := fun x hx => ((hmem x).1 hx).1
+  have hres : Resolves o R := fun x hx => h x (hsub x hx)
+  refine ⟨hsub, fun x hx y hy t ht => ((hmem x).1 hx).2 y (hsub y hy) t ht, ?_⟩
+  obtain ⟨R2, hR2, hs2, hmem2⟩ := C13_child_nodes o R hres
+  rw [hR2]
+  congr
+  apply eq_of_sorted_of_mem_iff _ _ hs2 hs
+  intro x
+  rw [hmem2]
+  exact ⟨fun hx => hx.1, fun hx => ⟨hx, fun y hy t ht => ((hmem x).1 hx).2 y (hsub y hy) t ht⟩⟩
+
 /-- `is_modifier`: the term or one of its ancestors is a modifier root -/
 theorem C13_is_modifier (o : Onto) (t : Term) :
     o.isModifier t = true ↔ ∃ m ∈ o.modifier, m = t.id ∨ m ∈ t.allParents := by
@@ -189,6 +208,20 @@ theorem C13_inplace_eq_copy (o : Onto) (S : List Nat) :
   · simp [removeModifier, withoutModifier, modifierFilterMut_eq]
   · simp [removeObsolete, withoutObsolete, obsoleteFilterMut_eq]
   · simp [replaceObsolete, withReplacedObsolete, replaceMapMut_eq]
+
+/-- the precondition is necessary: with a member that is not a term, every operation that walks
+the whole set panics (`child_nodes` may stop early inside its inner `all`, see the model) -/
+theorem C13_panic_without_member (o : Onto) (S : List Nat) (h : ¬ Resolves o S) :
+    withoutModifier o S = .panic ∧ withoutObsolete o S = .panic ∧ withReplacedObsolete o S = .panic ∧
+    geneIds o S = .panic ∧ omimDiseaseIds o S = .panic ∧ orphaDiseaseIds o S = .panic ∧
+    categories o S = .panic ∧ informationContent o S = .panic := by
+  have hg := annUnion_panic o .gene S h []
+  refine ⟨by simp [withoutModifier, modifierFilter_panic o S h, rmap],
+    by simp [withoutObsolete, obsoleteFilter_panic o S h, rmap],
+    by simp [withReplacedObsolete, replaceMap_panic o S h, rmap],
+    hg, annUnion_panic o .omim S h [], annUnion_panic o .orpha S h [],
+    categoriesAcc_panic o S h [], ?_⟩
+  simp [informationContent, geneIds, hg, Res.bind]
 
 /-- the id-level views: `len`, `is_empty`, `contains` of a group -/
 theorem C13_views (S : List Nat) (x : Nat) :
